@@ -16,38 +16,46 @@ theorem tie_untranslated : FactsFn.untranslated = [] := by decide
 theorem tie_lenCheck_seqOf (gs : List G) (o : SeqOpts) (sh : SeqShape) (h : (G.seq .seqOf gs o).shape = some sh)
     (len : Nat) : sh.lenCheck len = FactsFn.lenCheckSeqOf len gs.length := by
   simp only [G.shape, Option.some.injEq] at h; subst h
-  simp only [FactsFn.lenCheckSeqOf, nat_beq_decide]
+  rw [Bool.eq_iff_iff]
+  simp [FactsFn.lenCheckSeqOf] <;> omega
 
 theorem tie_lenCheck_seqTry (gs : List G) (o : SeqOpts) (sh : SeqShape) (h : (G.seq .seqTry gs o).shape = some sh)
     (len : Nat) : sh.lenCheck len = FactsFn.lenCheckSeqTry len gs.length := by
   simp only [G.shape, Option.some.injEq] at h; subst h
-  simp [FactsFn.lenCheckSeqTry]
+  rw [Bool.eq_iff_iff]
+  simp [FactsFn.lenCheckSeqTry] <;> omega
 
 theorem tie_lenCheck_seqFirstOrAll (gs : List G) (o : SeqOpts) (sh : SeqShape)
     (h : (G.seq .seqFirstOrAll gs o).shape = some sh) (len : Nat) :
     sh.lenCheck len = FactsFn.lenCheckSeqFirstOrAll len gs.length := by
   simp only [G.shape, Option.some.injEq] at h; subst h
-  simp only [FactsFn.lenCheckSeqFirstOrAll, nat_beq_decide]
+  rw [Bool.eq_iff_iff]
+  simp [FactsFn.lenCheckSeqFirstOrAll] <;> omega
 
 theorem tie_lenCheck_many (g : G) (ae : Bool) (o : SeqOpts) (sh : SeqShape) (h : (G.many g ae o).shape = some sh)
     (len : Nat) : sh.lenCheck len = FactsFn.lenCheckMany ae len := by
   simp only [G.shape, Option.some.injEq] at h; subst h
-  simp [FactsFn.lenCheckMany]
+  rw [Bool.eq_iff_iff]
+  cases ae <;> simp [FactsFn.lenCheckMany] <;> omega
 
 theorem tie_lenCheck_sepBy (v s : G) (ae : Bool) (o : SeqOpts) (sh : SeqShape) (h : (G.sepBy v s ae o).shape = some sh)
     (len : Nat) : sh.lenCheck len = FactsFn.lenCheckSepBy ae len := by
   simp only [G.shape, Option.some.injEq] at h; subst h
-  cases ae <;> simp [FactsFn.lenCheckSepBy, nat_beq_decide]
+  rw [Bool.eq_iff_iff]
+  cases ae <;> simp [FactsFn.lenCheckSepBy] <;> omega
 
 theorem tie_sepBy_lookup (v s : G) (ae : Bool) (o : SeqOpts) (sh : SeqShape) (h : (G.sepBy v s ae o).shape = some sh)
     (i : Nat) : sh.lookup i = some (if FactsFn.sepByIsValue i then v else s) := by
   simp only [G.shape, Option.some.injEq] at h; subst h
-  simp only [FactsFn.sepByIsValue]
+  have hv : FactsFn.sepByIsValue i = decide (i % 2 = 0) := by
+    rw [Bool.eq_iff_iff]; simp [FactsFn.sepByIsValue] <;> omega
+  rw [hv]
   by_cases hi : i % 2 = 0 <;> simp [hi]
 
 /-- Memoize's curtailment test (the model compares with `remaining + Facts.curtailSlack`) -/
 theorem tie_curtails (cnt rem : Nat) : decide (cnt > rem + Facts.curtailSlack) = FactsFn.curtails cnt rem := by
-  simp [FactsFn.curtails, Facts.curtailSlack]
+  rw [Bool.eq_iff_iff]
+  simp [FactsFn.curtails, Facts.curtailSlack] <;> omega
 
 /-- ResultCache.Get's reuse test, per stored key -/
 theorem tie_cacheGet (c : List CacheEntry) (idx pos : Nat) (ctx : Ctx) :
@@ -55,31 +63,41 @@ theorem tie_cacheGet (c : List CacheEntry) (idx pos : Nat) (ctx : Ctx) :
       match c.find? (fun e => e.idx == idx && e.pos == pos) with
       | none => none
       | some e => if e.ctx.all (fun kv => !FactsFn.cacheRejects kv.2 (ctx.get kv.1)) then some e else none := by
-  simp only [cacheGet, FactsFn.cacheRejects]
+  have hr : ∀ a b : Nat, FactsFn.cacheRejects a b = decide (a > b) := by
+    intro a b; rw [Bool.eq_iff_iff]; simp [FactsFn.cacheRejects] <;> omega
+  simp only [cacheGet, hr]
   cases List.find? (fun e => e.idx == idx && e.pos == pos) c <;> rfl
 
 /-- the sequence resets the left-recursion context exactly when the translated test says so -/
-theorem tie_seqResets (fr_pos : Nat) (n : Node) : decide (n.rpos > fr_pos) = FactsFn.seqResets n.rpos fr_pos := rfl
+theorem tie_seqResets (fr_pos : Nat) (n : Node) : decide (n.rpos > fr_pos) = FactsFn.seqResets n.rpos fr_pos := by
+  rw [Bool.eq_iff_iff]
+  simp [FactsFn.seqResets] <;> omega
 
 /-- Context.SetError -/
 theorem tie_setError (st : St) (e : Err) :
     st.setError (some e) =
       if FactsFn.setErrorTakes st.ctxErr.isNone e.pos ((st.ctxErr.map Err.pos).getD 0) then { st with ctxErr := some e } else st := by
+  have ht : ∀ (b : Bool) (x y : Nat), FactsFn.setErrorTakes b x y = (b || decide (x ≥ y)) := by
+    intro b x y; rw [Bool.eq_iff_iff]; cases b <;> simp [FactsFn.setErrorTakes] <;> omega
   unfold St.setError
   cases h : st.ctxErr with
-  | none => simp [FactsFn.setErrorTakes]
+  | none => simp [ht]
   | some c =>
-    simp only [FactsFn.setErrorTakes, Option.isNone_some, Bool.false_or, Option.map_some, Option.getD_some]
+    simp only [ht, Option.isNone_some, Bool.false_or, Option.map_some, Option.getD_some]
     by_cases hp : e.pos ≥ c.pos <;> simp [hp]
 
 theorem tie_isWordByte (b : Nat) : isWordByte b = FactsFn.isWordCharacter b := by
-  simp [isWordByte, FactsFn.isWordCharacter, Bool.or_assoc]
+  rw [Bool.eq_iff_iff]
+  simp [isWordByte, FactsFn.isWordCharacter] <;> omega
 
-theorem tie_remaining (f : File) (pos : Nat) : remaining f pos = FactsFn.remaining f.len pos f.offset := rfl
+theorem tie_remaining (f : File) (pos : Nat) : remaining f pos = FactsFn.remaining f.len pos f.offset := by
+  simp only [remaining, FactsFn.remaining] <;> omega
 
-theorem tie_isEOF (f : File) (pos : Nat) : isEOF f pos = FactsFn.isEOF f.len pos f.offset := rfl
+theorem tie_isEOF (f : File) (pos : Nat) : isEOF f pos = FactsFn.isEOF f.len pos f.offset := by
+  rw [Bool.eq_iff_iff]
+  simp [isEOF, FactsFn.isEOF] <;> omega
 
 theorem tie_addFile (fs : FileSet) (f : File) : (fs.addFile f).1.pos = FactsFn.fileSetNext fs.pos f.len := by
-  simp [FileSet.addFile, FactsFn.fileSetNext, Facts.fileSetGap]
+  simp only [FileSet.addFile, FactsFn.fileSetNext, Facts.fileSetGap] <;> omega
 
 end PV
